@@ -87,6 +87,16 @@ def generate(seed, tier):
                 if rng.random() < 0.6 and solver.safe_reference(ref, th0, x0, t0, d["obs_t"]) is not None:
                     lb[k_] = 0.0
             start = [round(rng.uniform(l + 0.05 * (u - l), u - 0.05 * (u - l)), 4) for l, u in zip(lb, ub)]
+        if hard and rng.random() < 0.4:
+            # lower bounds of exactly 0 on every parameter that tolerates it, start near the upper faces: the first
+            # trial step of the search tends to land on the corner, where a gamma / count likelihood of a (numerically)
+            # zero prediction is undefined
+            for k_ in range(len(lb)):
+                th0 = list(theta)
+                th0[bidx[k_]] = 0.0
+                if solver.safe_reference(ref, th0, x0, t0, d["obs_t"]) is not None:
+                    lb[k_] = 0.0
+            start = [round(l + (u - l) * rng.choice([0.6, 0.92, 0.97, 1.0]), 4) for l, u in zip(lb, ub)]
         if rng.random() < 0.25:
             # a start (or the generating value itself) exactly on a face of the box
             j = rng.randrange(len(lb))
